@@ -157,89 +157,70 @@ fn indent_of(l: &str) -> usize {
     l.len() - l.trim_start().len()
 }
 
-/// Deepest differing lines of two indented plan texts, one failure per operator kind.
-fn text_fails(sql: &str, conf: &str, t0: &str, t1: &str, out: &mut Vec<Fail>) {
-    if t0 == t1 {
-        return;
-    }
-    let (la, lb): (Vec<&str>, Vec<&str>) = (t0.lines().collect(), t1.lines().collect());
-    if la.len() != lb.len() {
-        let i = la.iter().zip(&lb).take_while(|(p, q)| p == q).count().min(la.len().saturating_sub(1));
-        let parent = (0..i).rev().find(|j| indent_of(la[*j]) < indent_of(la[i])).map(|j| node_kind(la[j])).unwrap_or_else(|| node_kind(la[i]));
-        out.push(Fail { cause: format!("plan_text_changed:shape:{parent}"), what: format!("plan shape differs after the round trip of {sql} [{conf}]\noriginal:\n{t0}\ndecoded:\n{t1}") });
-        return;
-    }
-    let differs: Vec<bool> = la.iter().zip(&lb).map(|(x, y)| x != y).collect();
-    let mut seen: Vec<String> = vec![];
-    for i in 0..la.len() {
-        if !differs[i] {
-            continue;
-        }
-        let d = indent_of(la[i]);
-        if (i + 1..la.len()).take_while(|j| indent_of(la[*j]) > d).any(|j| differs[j]) {
-            continue;
-        }
-        let k = node_kind(la[i]);
-        if !seen.contains(&k) {
-            seen.push(k.clone());
-            out.push(Fail {
-                cause: format!("plan_text_changed:{k}"),
-                what: format!("displayable(plan).indent(true) differs after the round trip of {sql} [{conf}]: `{}` became `{}`\noriginal:\n{t0}\ndecoded:\n{t1}", la[i].trim(), lb[i].trim()),
-            });
-        }
-    }
-}
-
 fn plan_text(p: &Arc<dyn ExecutionPlan>) -> String {
     displayable(p.as_ref()).set_show_schema(true).indent(true).to_string()
 }
 
-/// Per-node comparison of what `properties()` promises to the parent operator.  Properties are
-/// derived bottom-up, so a difference is reported at the *deepest* node showing it (a node none
-/// of whose children differs in the same property).  Returns the properties that differ at or
-/// below this node.
-fn node_fails(sql: &str, conf: &str, a: &Arc<dyn ExecutionPlan>, b: &Arc<dyn ExecutionPlan>, path: &str, st: &mut Stats, out: &mut Vec<Fail>) -> Vec<&'static str> {
+/// The node's own line of the verbose indented text.
+fn node_line(p: &Arc<dyn ExecutionPlan>) -> String {
+    plan_text(p).lines().next().unwrap_or("").to_string()
+}
+
+/// Parallel walk of the original and the decoded tree.  Per node: its own display line, and what
+/// `properties()` promises to the parent (partitioning, ordering, boundedness, emission type),
+/// plus fetch and schema.  Everything is derived bottom-up, so each difference is reported at the
+/// *deepest* node showing it: a property difference where no child differs in the same property,
+/// a display-line difference where no descendant differs in anything.  Returns the aspects that
+/// differ at or below this node.
+fn tree_fails(sql: &str, conf: &str, a: &Arc<dyn ExecutionPlan>, b: &Arc<dyn ExecutionPlan>, path: &str, st: &mut Stats, out: &mut Vec<Fail>) -> Vec<&'static str> {
     st.nodes += 1;
     if !st.operators.iter().any(|o| o == a.name()) {
         st.operators.push(a.name().to_string());
     }
     let here = format!("{path}/{}", a.name());
+    let mut push = |out: &mut Vec<Fail>, aspect: &str, what: String| {
+        let cause = format!("node_changed:{}:{aspect}", a.name());
+        if !out.iter().any(|f| f.cause == cause) {
+            out.push(Fail { cause, what });
+        }
+    };
     let (ca, cb) = (a.children(), b.children());
     let mut below: Vec<&'static str> = vec![];
-    if ca.len() != cb.len() {
-        out.push(Fail { cause: format!("node_property_changed:{}:children", a.name()), what: format!("node {here} has {} children, the decoded one {} ({sql} [{conf}])", ca.len(), cb.len()) });
-        below.push("children");
-    } else {
-        for (i, (x, y)) in ca.iter().zip(cb.iter()).enumerate() {
-            for w in node_fails(sql, conf, x, y, &format!("{here}[{i}]"), st, out) {
-                if !below.contains(&w) {
-                    below.push(w);
-                }
+    if a.name() != b.name() || ca.len() != cb.len() {
+        push(out, "shape", format!("node {here} ({} children) became {} ({} children) in the round trip of {sql} [{conf}]\noriginal subtree:\n{}\ndecoded subtree:\n{}", ca.len(), b.name(), cb.len(), plan_text(a), plan_text(b)));
+        return vec!["shape"];
+    }
+    for (i, (x, y)) in ca.iter().zip(cb.iter()).enumerate() {
+        for w in tree_fails(sql, conf, x, y, &format!("{here}[{i}]"), st, out) {
+            if !below.contains(&w) {
+                below.push(w);
             }
         }
     }
+    let ord = |p: &Arc<dyn ExecutionPlan>| p.equivalence_properties().output_ordering().map(|o| format!("{o}")).unwrap_or_else(|| "none".into());
     let props: Vec<(&'static str, String, String)> = vec![
-        ("operator", a.name().to_string(), b.name().to_string()),
         ("output_partitioning", format!("{}", a.output_partitioning()), format!("{}", b.output_partitioning())),
-        (
-            "output_ordering",
-            a.output_ordering().map(|o| format!("{o}")).unwrap_or_else(|| "none".into()),
-            b.output_ordering().map(|o| format!("{o}")).unwrap_or_else(|| "none".into()),
-        ),
+        // the ordering the node's equivalence properties establish (what parents plan against)
+        ("output_ordering", ord(a), ord(b)),
         ("boundedness", format!("{:?}", a.boundedness()), format!("{:?}", b.boundedness())),
         ("emission_type", format!("{:?}", a.pipeline_behavior()), format!("{:?}", b.pipeline_behavior())),
         ("fetch", format!("{:?}", a.fetch()), format!("{:?}", b.fetch())),
         ("schema", format!("{:?}", a.schema()), format!("{:?}", b.schema())),
     ];
+    let anything_below = !below.is_empty();
     for (what, x, y) in props {
-        if x != y {
-            if !below.contains(&what) {
-                let cause = format!("node_property_changed:{}:{what}", a.name());
-                if !out.iter().any(|f| f.cause == cause) {
-                    out.push(Fail { cause, what: format!("{what} of node {here} changed in the round trip of {sql} [{conf}] (no child of it differs in {what}): `{x}` became `{y}`") });
-                }
-                below.push(what);
-            }
+        if x != y && !below.contains(&what) {
+            push(out, what, format!("{what} of node {here} changed in the round trip of {sql} [{conf}] (no child of it differs in {what}): `{x}` became `{y}`\nnode: {}", node_line(a)));
+            below.push(what);
+        }
+    }
+    let (la, lb) = (node_line(a), node_line(b));
+    if la != lb {
+        if !anything_below && !below.iter().any(|w| *w != "text") {
+            push(out, "text", format!("display line of node {here} changed in the round trip of {sql} [{conf}] (nothing below it differs): `{la}` became `{lb}`"));
+        }
+        if !below.contains(&"text") {
+            below.push("text");
         }
     }
     if format!("{}", a.equivalence_properties()) != format!("{}", b.equivalence_properties()) {
@@ -337,13 +318,11 @@ fn check(ctx_a: &SessionContext, ctx_b: &SessionContext, sql: &str, conf: &Conf,
         Some(how) => corrupt(back, &how),
         None => back,
     };
-    text_fails(sql, cn, &plan_text(&plan), &plan_text(&back), &mut fails);
-    let text_ok = fails.is_empty();
-    let mut nf = vec![];
-    node_fails(sql, cn, &plan, &back, "", &mut st, &mut nf);
-    if text_ok {
-        // with a text difference already reported, property differences of the same nodes are its consequence
-        fails.extend(nf);
+    let aspects = tree_fails(sql, cn, &plan, &back, "", &mut st, &mut fails);
+    let (t0, t1) = (plan_text(&plan), plan_text(&back));
+    if t0 != t1 && fails.is_empty() {
+        // safety net: the whole text differs although the walk located nothing
+        fails.push(Fail { cause: "plan_text_changed:unlocated".into(), what: format!("indent(true) text differs after the round trip of {sql} [{cn}] (aspects {aspects:?})\noriginal:\n{t0}\ndecoded:\n{t1}") });
     }
     let r0 = run_physical(plan, ctx_a);
     let r1 = run_physical(back, ctx_b);
